@@ -71,7 +71,7 @@ def main():
             for d in demos:
                 os.remove(os.path.join(wt, pkg, os.path.basename(d)))
         t0 = time.time()
-        env = dict(ENV, VERIF_REPO=wt, VERIF_SEED=a.seed)
+        env = dict(ENV, VERIF_REPO=wt, VERIF_SEED=a.seed, VERIF_SCRATCH_TAG="_mu%d" % os.getpid())
         rc2, out2 = sh(["./check", a.prop, "--dev", "--tier", a.tier], cwd="/verif", timeout=6000, env=env)
         res["check_rc"] = rc2
         res["check_s"] = round(time.time() - t0, 1)
@@ -81,7 +81,7 @@ def main():
         if not a.keep:
             sh(["git", "-C", "/repo", "worktree", "remove", "--force", wt])
             shutil.rmtree(wt, ignore_errors=True)
-            shutil.rmtree("/verif/work/%s_scratch/harness_copy" % a.prop, ignore_errors=True)
+            shutil.rmtree("/verif/work/%s_scratch_mu%d" % (a.prop, os.getpid()), ignore_errors=True)
 
 
 if __name__ == "__main__":
